@@ -22,6 +22,13 @@
 (*     given by the constant Order.  TLC checks mechanism => property for  *)
 (*     all small ledgers; with a permuted Order it must find a             *)
 (*     counterexample.                                                     *)
+(*   - the ENTRY POINT (door) the statement is given through: the DB-API   *)
+(*     (Connection.execute), the shell (a statement typed at the prompt or *)
+(*     given on the bean-query command line), or a named query of the      *)
+(*     ledger executed with .run.  beanquery/shell.py: BQLShell.parse      *)
+(*     (action Hook) rewrites the FROM clause of what it parsed before it  *)
+(*     reaches the compiler; the period report presented must be that of   *)
+(*     the clauses written in the statement (Presented), whichever door.   *)
 (*                                                                         *)
 (* Numbers are pairs <<hi, lo>> meaning hi + lo / Base with 0 <= lo < Base *)
 (* (TLC integers are 32 bit; real ledgers need 6 decimals and 10^6 units). *)
@@ -55,6 +62,13 @@ CONSTANTS
     Inners,       \* set of subquery descriptors [on, c]: the statement is
                   \*     ... FROM <filter> <clauses> WHERE account IN (SELECT account FROM <c.filter> <c's clauses>)
                   \*   when on, a plain statement otherwise ({NoInner} in the configurations without nesting)
+    Doors,        \* set of entry points [ep, q] the statement is given through: ApiDoor, ShellDoor, RunDoor(q) (q = the date of the
+                  \*   query directive holding the statement)
+    HookMode,     \* "stated": BQLShell.parse gives a FROM clause WITHOUT a CLOSE the default CLOSE date of the door (none for a
+                  \*   typed statement, the date of the query directive for .run) and leaves everything else as parsed;
+                  \*   "rebuilt": it builds a new FROM clause from (expression, OPEN, default CLOSE) -- CLEAR is not carried over;
+                  \*   "override": it assigns the default CLOSE date whether or not a CLOSE is written.  Both kept for the
+                  \*   non-vacuity runs.
     ScopeMode     \* "stated": every FROM clause ranges over the table carrying exactly the clauses written in it;
                   \*   "inherit": a FROM clause without OPEN / CLOSE / CLEAR leaves the current table as it is (the subquery
                   \*   inherits the clauses of the enclosing statement);  "norestore": the table of the subquery stays current
@@ -78,6 +92,17 @@ Lo(c) == IF HasOpen(c) THEN c.open ELSE 0
 Hi(c) == IF c.close > 0 THEN c.close ELSE Inf
 InWin(c, dt) == Lo(c) <= dt /\ dt < Hi(c)
 Rejected(c) == HasOpen(c) /\ c.close > 0 /\ c.close < c.open      \* CLOSE date before OPEN date
+HasClauses(c) == c.open > 0 \/ c.close >= 0 \/ c.clear
+HasFrom(c) == HasClauses(c) \/ c.filter.n # "none"                 \* the statement has a FROM clause at all
+
+(* The entry point dr = [ep, q] the statement is given through, and the clauses it PRESENTS there: the clauses written in it
+   -- every subset of them, through every door.  The one thing a door adds: a named query run with .run closes the books on
+   the date q of its query directive when its FROM clause says nothing about CLOSE (shell.py: "default close date"); a
+   statement without any FROM clause, or with a CLOSE (bare or dated), is presented as written. *)
+ApiDoor == [ep |-> "api", q |-> 0]
+ShellDoor == [ep |-> "shell", q |-> 0]
+RunDoor(q) == [ep |-> "run", q |-> q]
+Presented(c, dr) == IF dr.ep = "run" /\ HasFrom(c) /\ ~HasClose(c) THEN [c EXCEPT !.close = dr.q] ELSE c
 
 Synthetic(flag) == flag \in {"S", "T", "C"}      \* summarize, transfer, conversions
 Core(p) == <<p.t, p.date, p.flag, p.k, p.u, p.v, p.w, p.wc, p.px>>
@@ -165,8 +190,6 @@ ClauseNames == <<"KeepOK", "BalanceSheetOK", "IncomeOK", "EquityOK", "TxBalanceO
 (* transaction satisfies fi.  (A subquery WITHOUT any FROM clause is not   *)
 (* covered: the statement says nothing about the table it ranges over.)    *)
 (***************************************************************************)
-HasClauses(c) == c.open > 0 \/ c.close >= 0 \/ c.clear
-HasFrom(c) == HasClauses(c) \/ c.filter.n # "none"
 AcctsOf(kt, R) == {kt[R[i].k].a : i \in 1..Len(R)}
 ScopeOK(kt, RO, f, RI, fi, RN) ==
     LET A == AcctsOf(kt, SelectSeq(RI, LAMBDA p : Pass(fi, p)))
@@ -214,8 +237,10 @@ ExpectTotalsN(kt, LP, c, ci) ==
 (***************************************************************************)
 VARIABLES
     ledger,    \* the input entries (never modified)
-    cfg,       \* the clauses and the filter of the statement
-    status,    \* "parse" | "compile" | "run" | "done" | "rejected" (CompilationError) | "crashed" (any other exception)
+    cfg,       \* the clauses and the filter of the statement, as written
+    door,      \* the entry point the statement is given through
+    node,      \* the FROM clause as it reaches the compiler (= cfg as parsed; rewritten by the shell's parse hook)
+    status,    \* "parse" | "hook" | "compile" | "run" | "done" | "rejected" (CompilationError) | "crashed" (any other exception)
     pc,        \* the steps still to take
     entries,   \* the list being transformed
     report,    \* ghost: the list as the last clause step left it (what the filter expression is evaluated on)
@@ -223,7 +248,7 @@ VARIABLES
     tab,       \* the tables still to be prepared, each the clauses [open, close, clear] it carries: the subquery's (if any), then
                \*   the statement's own
     sub        \* what the subquery yielded: [accts |-> the accounts it selects, report |-> ghost, its list as its last clause step left it]
-vars == <<ledger, cfg, status, pc, entries, report, inner, tab, sub>>
+vars == <<ledger, cfg, door, node, status, pc, entries, report, inner, tab, sub>>
 
 NK == Len(KeyTab)
 KeyOf(a, c) == CHOOSE k \in 1..NK : KeyTab[k].a = a /\ KeyTab[k].c = c /\ KeyTab[k].lot = ""
@@ -305,6 +330,8 @@ NoSub == [accts |-> {}, report |-> <<>>]
 InitWith(L) ==
     /\ ledger \in L
     /\ cfg = [open |-> 0, close |-> -1, clear |-> FALSE, filter |-> NoFilter]
+    /\ door = ApiDoor
+    /\ node = cfg
     /\ status = "parse"
     /\ pc = <<>>
     /\ entries = ledger
@@ -315,32 +342,49 @@ InitWith(L) ==
 
 Init == InitWith(Ledgers)
 
-\* the statement arrives: any combination of the clauses and a filter expression
-Statement ==
+\* the statement arrives through one of the doors and is parsed: any combination of the clauses and a filter expression.
+\* Connection.execute hands the parsed statement to the compiler; the shell passes it through its parse hook first
+Arrives(cfgs, inners, doors) ==
     /\ status = "parse"
-    /\ cfg' \in [open : OpenArgs, close : CloseArgs, clear : ClearArgs, filter : Filters]
-    /\ inner' \in Inners
-    /\ status' = "compile"
+    /\ cfg' \in cfgs
+    /\ inner' \in inners
+    /\ door' \in doors
+    /\ node' = cfg'
+    /\ status' = IF door'.ep = "api" THEN "compile" ELSE "hook"
     /\ UNCHANGED <<ledger, pc, entries, report, tab, sub>>
+Statement == Arrives([open : OpenArgs, close : CloseArgs, clear : ClearArgs, filter : Filters], Inners, Doors)
+
+\* shell.BQLShell.parse, for SELECT / BALANCES / JOURNAL: a FROM clause without CLOSE gets the default CLOSE date of the door
+\* -- none for a statement typed at the prompt or given on the command line, the date of the query directive for .run;
+\* nothing else of the parsed statement changes
+Hook ==
+    /\ status = "hook"
+    /\ LET dflt == IF door.ep = "run" THEN door.q ELSE -1
+           hit == HasFrom(node) /\ (HookMode = "override" \/ ~HasClose(node))
+       IN node' = IF ~hit THEN node
+                  ELSE IF HookMode = "rebuilt" THEN [node EXCEPT !.close = dflt, !.clear = FALSE]
+                  ELSE [node EXCEPT !.close = dflt]
+    /\ status' = "compile"
+    /\ UNCHANGED <<ledger, cfg, door, pc, entries, report, inner, tab, sub>>
 
 \* compiler._compile_from, for the FROM clause of the statement and then (the WHERE clause is compiled after it, the table
 \* of the statement being current) for the FROM clause of the subquery: date order check, then table.update(open, close,
 \* clear); the table of the enclosing statement is current again when the subquery is compiled
-RejectedStmt == Rejected(cfg) \/ (inner.on /\ Rejected(inner.c))
+RejectedNode == Rejected(node) \/ (inner.on /\ Rejected(inner.c))
 Compile ==
     /\ status = "compile"
-    /\ LET tOwn == TableOf(PlainTable, cfg)
+    /\ LET tOwn == TableOf(PlainTable, node)
            tSub == TableOf(tOwn, inner.c)
            tOuter == IF inner.on /\ ScopeMode = "norestore" THEN tSub ELSE tOwn
        IN
-       IF CompileMode = "shipped" /\ HasOpen(cfg) /\ cfg.close = 0
+       IF CompileMode = "shipped" /\ HasOpen(node) /\ node.close = 0
        THEN status' = "crashed" /\ UNCHANGED <<pc, tab>>    \* before 41a2136: `node.open > node.close` with close = True
-       ELSE IF RejectedStmt THEN status' = "rejected" /\ UNCHANGED <<pc, tab>>
+       ELSE IF RejectedNode THEN status' = "rejected" /\ UNCHANGED <<pc, tab>>
        ELSE /\ status' = "run"
             /\ pc' = IF inner.on THEN ClauseSteps(tSub) \o <<"SubCollect">> \o Program(tOuter) \o <<"ApplyWhere">>
                       ELSE Program(tOuter)
             /\ tab' = IF inner.on THEN <<tSub, tOuter>> ELSE <<tOuter>>
-    /\ UNCHANGED <<ledger, cfg, entries, report, inner, sub>>
+    /\ UNCHANGED <<ledger, cfg, door, node, entries, report, inner, sub>>
 
 At(name) == status = "run" /\ pc # <<>> /\ Head(pc) = name
 T == tab[1]      \* the table being prepared
@@ -349,7 +393,7 @@ Becomes(new, isClause) ==
     /\ report' = IF isClause THEN new ELSE report
     /\ pc' = Tail(pc)
     /\ status' = IF Tail(pc) = <<>> THEN "done" ELSE "run"
-    /\ UNCHANGED <<ledger, cfg, inner, tab, sub>>
+    /\ UNCHANGED <<ledger, cfg, door, node, inner, tab, sub>>
 
 \* OPEN ON d = summarize.open(): conversions before d; transfer Income / Expenses before d; summarize everything before d
 OpenConversions ==
@@ -375,7 +419,7 @@ ClearTransfer ==
 \* the FROM expression is evaluated entry by entry on the prepared list
 ApplyFilter ==
     /\ At("ApplyFilter")
-    /\ Becomes(SelectSeq(entries, LAMBDA x : Pass(cfg.filter, [t |-> x.t, date |-> x.date, flag |-> x.flag])), FALSE)
+    /\ Becomes(SelectSeq(entries, LAMBDA x : Pass(node.filter, [t |-> x.t, date |-> x.date, flag |-> x.flag])), FALSE)
 \* the subquery SELECT account FROM <inner.c.filter> <its clauses> has been prepared on ITS table: its FROM expression is
 \* evaluated entry by entry, the accounts of the postings of the passing entries are collected; the table of the statement
 \* itself is prepared next, from the ledger
@@ -386,7 +430,7 @@ SubCollect ==
     /\ report' = ledger
     /\ tab' = Tail(tab)
     /\ pc' = Tail(pc)
-    /\ UNCHANGED <<ledger, cfg, inner, status>>
+    /\ UNCHANGED <<ledger, cfg, door, node, inner, status>>
 \* WHERE account IN (<the subquery>): evaluated posting by posting
 ApplyWhere ==
     /\ At("ApplyWhere")
@@ -395,6 +439,7 @@ ApplyWhere ==
 
 Next ==
     \/ Statement
+    \/ Hook
     \/ Compile
     \/ OpenConversions \/ OpenTransfer \/ OpenSummarize
     \/ CloseTruncate \/ CloseConversions
@@ -409,21 +454,23 @@ Spec == Init /\ [][Next]_vars
 (* Invariants: the property holds of what the mechanism produces *)
 LP == RowsOf(ledger)
 Done == status = "done"
+W == Presented(cfg, door)      \* the clauses the statement presents through its door
+RejectedStmt == Rejected(W) \/ (inner.on /\ Rejected(inner.c))
 
-KeepInv == Done => KeepOK(LP, cfg, RowsOf(report))
-BalanceSheetInv == Done => BalanceSheetOK(KeyTab, LP, cfg, RowsOf(report))
-IncomeInv == Done => IncomeOK(KeyTab, LP, cfg, RowsOf(report))
-EquityInv == Done => EquityOK(KeyTab, LP, cfg, RowsOf(report))
+KeepInv == Done => KeepOK(LP, W, RowsOf(report))
+BalanceSheetInv == Done => BalanceSheetOK(KeyTab, LP, W, RowsOf(report))
+IncomeInv == Done => IncomeOK(KeyTab, LP, W, RowsOf(report))
+EquityInv == Done => EquityOK(KeyTab, LP, W, RowsOf(report))
 \* in every intermediate list as well (not of the rows a WHERE clause picks out of the transactions)
 TxBalanceInv == ~(Done /\ inner.on) => TxBalanceOK(RowsOf(entries), TRUE)
 LayoutInv == Done => LayoutOK(RowsOf(report)) /\ LayoutOK(RowsOf(entries))
-FilterInv == (Done /\ ~inner.on) => FilterOK(RowsOf(report), cfg.filter, RowsOf(entries))
+FilterInv == (Done /\ ~inner.on) => FilterOK(RowsOf(report), W.filter, RowsOf(entries))
 \* the FROM clause of a subquery presents the period report of ITS OWN clauses (every clause of the property, with the
 \* clauses as written in the subquery), and the statement returns the rows of its own report the subquery selects
 ScopeInv ==
     (Done /\ inner.on) =>
       /\ \A i \in 1..Len(ClauseNames) : PeriodReportClauses(KeyTab, LP, inner.c, RowsOf(sub.report), TRUE)[i]
-      /\ ScopeOK(KeyTab, RowsOf(report), cfg.filter, RowsOf(sub.report), inner.c.filter, RowsOf(entries))
+      /\ ScopeOK(KeyTab, RowsOf(report), W.filter, RowsOf(sub.report), inner.c.filter, RowsOf(entries))
 \* compile time: rejected exactly when a CLOSE date precedes the OPEN date of the same FROM clause; everything else runs
 \* to completion
 CompileInv ==
@@ -436,14 +483,14 @@ ExpectInv ==
     Done =>
       LET R == RowsOf(entries) IN
       IF ~inner.on THEN
-          /\ CoreSeq(SelectSeq(R, LAMBDA p : ~Synthetic(p.flag))) = CoreSeq(ExpectKept(LP, cfg))
-          /\ SynthPass(cfg.filter) # "some" =>
-               /\ \A k \in 1..NK : KeyTab[k].r # "Q" => TotU(NK, R)[k] = ExpectTotals(KeyTab, LP, cfg)[k]
-               /\ \A i \in 1..Len(CurSeq) : VSum(KeyTab, R, CurSeq[i]) = ExpectValue(KeyTab, LP, cfg, CurSeq[i])
+          /\ CoreSeq(SelectSeq(R, LAMBDA p : ~Synthetic(p.flag))) = CoreSeq(ExpectKept(LP, W))
+          /\ SynthPass(W.filter) # "some" =>
+               /\ \A k \in 1..NK : KeyTab[k].r # "Q" => TotU(NK, R)[k] = ExpectTotals(KeyTab, LP, W)[k]
+               /\ \A i \in 1..Len(CurSeq) : VSum(KeyTab, R, CurSeq[i]) = ExpectValue(KeyTab, LP, W, CurSeq[i])
       ELSE InnerDetermined(inner.c) =>
           /\ sub.accts = ExpectAccts(KeyTab, LP, inner.c)
-          /\ CoreSeq(SelectSeq(R, LAMBDA p : ~Synthetic(p.flag))) = CoreSeq(ExpectKeptN(KeyTab, LP, cfg, inner.c))
-          /\ SynthPass(cfg.filter) # "some" =>
-               \A k \in 1..NK : KeyTab[k].r # "Q" => TotU(NK, R)[k] = ExpectTotalsN(KeyTab, LP, cfg, inner.c)[k]
+          /\ CoreSeq(SelectSeq(R, LAMBDA p : ~Synthetic(p.flag))) = CoreSeq(ExpectKeptN(KeyTab, LP, W, inner.c))
+          /\ SynthPass(W.filter) # "some" =>
+               \A k \in 1..NK : KeyTab[k].r # "Q" => TotU(NK, R)[k] = ExpectTotalsN(KeyTab, LP, W, inner.c)[k]
 
 =============================================================================
